@@ -42,8 +42,6 @@ def report(ctx, trace, viols, combo):
 def run(ctx):
     quick = ctx.tier == "quick"
     part = ctx.go_build("cmd/part", "part")
-    if ctx.replay:
-        raise vlib.NoVerdict("replay: re-run bin/check C04 (exhaustive over the same universe); case: %s" % open(ctx.replay).read()[:400])
     # 1. design
     r = ctx.tlc("PartitionSM", ctx.cfg("PartitionSM_mc.cfg", {"MaxLog": 2 if quick else 3}), timeout=1800, heap="12g")
     if r.violated:
